@@ -89,6 +89,7 @@ pub use replication::events::{Ev, Events};
 /// header-size invariant: nothing but the fixed-size fields is ever stored, so both slots fit their 4096 bytes
 pub open spec fn header_small(h: Header) -> bool {
     h.user_data@.len() == 0 && h.hints.reorgs@.len() == 0 && h.tree.root_hash@.len() <= 32 && h.tree.signature@.len() <= 64
+        && manifest_std(h.manifest)
 }
 pub proof fn lemma_header_small_fits(h: Header)
     requires header_small(h)
@@ -671,6 +672,8 @@ impl Hypercore {
         // the opened core takes its key pair (and so its writability) from the stored header
         r is Ok ==> r->Ok_0.key_pair == r->Ok_0.header.key_pair && r->Ok_0.skip_flush_count == 0
             && r->Ok_0.events.trace@ == Seq::<Ev>::empty(),
+        // C06: the header of an opened core can be written back (its manifest names the hash and signature scheme of the format)
+        r is Ok ==> manifest_std(r->Ok_0.header.manifest),
         // opening existing storage writes nothing; creating writes only the first header slot
         r is Ok ==> r->Ok_0.storage.journal@.len() <= storage.journal@.len() + 2
     sub `Signature::try_from\(&\*([\w\.]+)\.signature\)` => `Signature::vp_try_from(&*\1.signature)`
@@ -680,12 +683,14 @@ impl Hypercore {
     loop 1:
         invariant
             !storage.failed@, bitfield.wf(), storage.journal@.len() <= old_journal_len + 2,
+            manifest_std(oplog_open_outcome.header.manifest),
             // C01 / C02 replay of the pending entries (redo log): every stored bitfield update and tree upgrade is applied, in order
             forall|k: int| #![trigger bitfield.bit(k)] 0 <= k ==> bitfield.bit(k) == replay_bit(bits0, entries@, it_e.index@ as int, k),
             tree.length == replay_len(len0, entries@, it_e.index@ as int), tree.fork == replay_fork(fork0, entries@, it_e.index@ as int)
     loop 2:
         invariant
             !storage.failed@, bitfield.wf(), storage.journal@.len() <= old_journal_len + 2,
+            manifest_std(oplog_open_outcome.header.manifest),
             tree.length == replay_len(len0, entries@, it_e.index@ as int), tree.fork == replay_fork(fork0, entries@, it_e.index@ as int),
             forall|j: int| 0 <= j < it_n.index@ ==> tree.unflushed@.contains_key((#[trigger] entry.tree_nodes@[j]).index)
     after `tree.commit(changeset)?;`:
